@@ -200,10 +200,28 @@ pub fn generate(rng: &mut Rng, tier: Tier, stats: &mut GenStats) -> Scenario {
     let model0 = Model::from_tree(&tree).unwrap();
     let cwd = g.pick_dir(&model0, 50);
     let base = g.pick_dir(&model0, 55);
+    // a cluster of faults in one directory (several consecutive error items, an error as the very
+    // first or very last item of a listing)
+    let mut cluster = false;
+    if g.rng.chance(7, 100) {
+        let dirs = Gen::plain_dirs(&model0);
+        let d = g.rng.pick(&dirs).clone();
+        let k = g.rng.range(3, 5);
+        for i in 0..k {
+            let path = join(&d, &format!("f{}", i));
+            let node = match g.rng.below(4) {
+                0 => Node { path, kind: Kind::Dir, mode: Some(0) },
+                1 => Node { kind: Kind::Link { target: format!("f{}", i) }, path, mode: None },
+                _ => Node { path, kind: Kind::Link { target: "nowhere".into() }, mode: None },
+            };
+            tree.push(node);
+        }
+        cluster = true;
+    }
     plant_modes(&mut g, &mut tree, &[cwd.clone(), base.clone()]);
     let model = Model::from_tree(&tree).unwrap();
     let has_links = tree.iter().any(|n| matches!(n.kind, Kind::Link { .. }));
-    let link = if has_links && g.rng.chance(6, 10) { Link::ReadTarget } else { Link::ReadFile };
+    let link = if has_links && (cluster || g.rng.chance(6, 10)) { Link::ReadTarget } else { Link::ReadFile };
     let mut w = Walker {
         source: Source::Path,
         base,
@@ -811,6 +829,14 @@ fn source_clauses(
     }
     if faults.len() >= 2 {
         out.probe("fault:several");
+    }
+    for pair in uv.es.windows(2) {
+        if !uv.ys.iter().any(|y| y.seq > pair[0].seq && y.seq < pair[1].seq) {
+            out.probe("fault:consecutive-error-items");
+        }
+    }
+    if uv.es.len() >= 3 {
+        out.probe("fault:three-or-more-error-items");
     }
 }
 
